@@ -62,7 +62,11 @@ def histories(draw):
             if q is not None:
                 ops.append(["clear", q[1], q[2]])
             continue
-        op = gen.gen_edit(draw, G, FEAT)
+        op = None
+        if draw(st.integers(0, 2)) == 0:
+            op = aimed_edit(draw, G)
+        if op is None:
+            op = gen.gen_edit(draw, G, FEAT)
         if op is None:
             continue
         if gen.apply_edit_to_picture(G, op):
@@ -79,6 +83,49 @@ def histories(draw):
                 if gen.apply_edit_to_picture(G, op2):
                     ops.append(op2)
     return {"ops": ops}
+
+
+def hot_members(G):
+    """(space path, kind, name) of cells / references some formula reaches through an attribute path"""
+    from ..expr import walk
+    hot = set()
+    for s in G.all_spaces():
+        for cdef in s.cells.values():
+            for n in walk(cdef.expr):
+                if n[0] == "attr":
+                    for t in G.all_spaces():
+                        if n[2] in t.cells:
+                            hot.add((t.path, "cells", n[2]))
+                        if n[2] in t.refs:
+                            hot.add((t.path, "ref", n[2]))
+    return sorted(hot)
+
+
+def aimed_edit(draw, G):
+    hot = hot_members(G)
+    if not hot:
+        return None
+    path, kind, name = draw(st.sampled_from(hot))
+    sp = G.space(path)
+    p = list(path)
+    if kind == "ref":
+        return draw(st.sampled_from([["set_ref", p, name, ["v", draw(st.integers(10, 99))], None],
+                                     ["set_ref", p, name, ["v", draw(st.integers(10, 99))], None],
+                                     ["del_ref", p, name]]))
+    cdef = sp.cells[name]
+    k = draw(st.integers(0, 5))
+    if k <= 1 and cdef.cached:
+        return ["set_value", p, name, [draw(st.integers(0, 2)) for _ in cdef.params], draw(st.integers(20, 99))]
+    if k == 2:
+        return ["set_cells_formula", p, name, gen.gen_cells_def(draw, G, sp, name, FEAT, params=cdef.params)]
+    if k == 3:
+        new = draw(st.sampled_from(["c%d" % i for i in range(FEAT.max_rank + 1)]))
+        if new != name and G.find_cells(sp, new) is None:
+            return ["rename_cells", p, name, new]
+        return None
+    if k == 4:
+        return ["del_cells", p, name]
+    return ["set_cached", p, name, not cdef.cached]
 
 
 def strategy(tier):
